@@ -126,6 +126,23 @@ func (t *runTarget) Evaluate(engine runner.Engine) error {
 		reason = "failed during last run"
 	}
 
+	// A target may be running for a reason that leaves no trace once the process dies: one of
+	// its generated files is missing (and the interrupted body re-creates it), or a dependency
+	// re-executed and reproduced the same stamp. The old record would then still match and an
+	// interrupted body, which may have half-written its outputs, would count as up to date. So
+	// remember that the target must run until its body has succeeded.
+	//
+	// This happens before the target is reported as evaluating, so that a failure to write the
+	// record is not mistaken for a failure of the body.
+	if !proj.dryrun && IsTarget(label) && !info.Rerun {
+		pending := info
+		pending.Rerun = true
+		if err := proj.saveTargetInfo(label, pending); err != nil {
+			proj.events.TargetFailed(label, err)
+			return err
+		}
+	}
+
 	proj.events.TargetEvaluating(label, reason, diff)
 
 	if proj.dryrun {
@@ -134,20 +151,6 @@ func (t *runTarget) Evaluate(engine runner.Engine) error {
 
 		proj.events.TargetSucceeded(label, true)
 		return nil
-	}
-
-	// A target may be running for a reason that leaves no trace once the process dies: one of
-	// its generated files is missing (and the interrupted body re-creates it), or a dependency
-	// re-executed and reproduced the same stamp. The old record would then still match and an
-	// interrupted body, which may have half-written its outputs, would count as up to date. So
-	// remember that the target must run until its body has succeeded.
-	if IsTarget(label) && !info.Rerun {
-		pending := info
-		pending.Rerun = true
-		if err := proj.saveTargetInfo(label, pending); err != nil {
-			proj.events.TargetFailed(label, err)
-			return err
-		}
 	}
 
 	// Otherwise, evaluate the target.
